@@ -41,7 +41,7 @@ func init() {
 		Stubs: []string{"wall clock: testing/synctest fake clock (moves only when the simulator sleeps; cannot move backwards - earlier instants are reached with an explicit VerifyOptions.CurrentTime)", "crypto/rand and the standard library's signing randomness: testing/cryptotest.SetGlobalRandom seeded from the program", "transport between CA, subscriber and verifier: byte alteration, truncation, substitution of the issuer certificate"},
 		Assume: []string{
 			"chain soundness is judged for every returned chain against the harness' topology model by KEY IDENTITY; the model never reads a field of a parsed certificate",
-			"path length counts every intermediate between the constrained certificate and the leaf (Go's reading, at least as strict as RFC 5280 which exempts self-issued ones; the generator issues no self-issued intermediates); name constraints are checked for the leaf's DNS names only; host name matching (VerifyOptions.DNSName) and extended-key-usage nesting are not part of the statement: their outcome is recorded, never judged",
+			"path length counts every intermediate between the constrained certificate and the leaf (Go's reading, at least as strict as RFC 5280 which exempts self-issued ones; the generator issues no self-issued intermediates); name constraints of a CA are checked against the DNS names of every certificate below it in the chain (RFC 5280 6.1.3 (b),(c); no self-issued intermediates exist in the simulation); host name matching (VerifyOptions.DNSName) and extended-key-usage nesting are not part of the statement: their outcome is recorded, never judged",
 			"trust anchors are whatever the verifier configured: the self-signature, validity of signature algorithm (SHA-1) of a root is not demanded, but its window, CA flag, key usage, path length and name constraints are (as for any non-leaf)",
 			"completeness (Verify must succeed) is asserted only if the model finds a PLAIN chain: all certificates inside their windows (const c15ExactWindows: inclusive ends per RFC 5280 4.1.2.5; otherwise more than one hour from both ends), every issuer a CA with keyCertSign or no key usage, no path length, no name constraint, no SHA-1 signature, ExtKeyUsageAny requested or no EKU in the chain, no DNSName, no tampered pool member",
 			"CheckSignatureFrom must refuse a parent that is not a CA or lacks keyCertSign (RFC 5280 4.2.1.9 / 4.2.1.3, quoted in the function); the ungated Certificate.CheckSignature is the path used to confirm signatures made by such issuers; SHA-1 certificate signatures: either verdict of CheckSignatureFrom is accepted",
@@ -195,13 +195,24 @@ func genC15(r *sim.Rand, tier string) *sim.Program {
 			}
 			return ci, plan[cas[ci]]
 		}
-		// a constraint that does (hit) or does not contain the leaf's first DNS name
+		// name constraints bind every certificate below the constraining CA, not only the leaf: in a third of the
+		// twisted runs an intermediate carries DNS names of its own, and half of those leaves carry none
+		if len(interIdx) > 0 && r.Chance(1, 3) {
+			plan[interIdx[r.Intn(len(interIdx))]].dns = dnsList()
+			if r.Chance(1, 2) {
+				leaf.dns = ""
+			}
+		}
+		// a constraint that does (hit) or does not contain a DNS name of the main path (leaf or intermediate)
 		related := func(hit bool) string {
 			names := c15CleanNames(leaf.dns, false)
+			for _, ii := range interIdx {
+				names = append(names, c15CleanNames(plan[ii].dns, false)...)
+			}
 			if len(names) == 0 || !hit {
 				return r.PickStr(c15ConstraintPool...)
 			}
-			labels := strings.Split(strings.TrimPrefix(names[0], "*."), ".")
+			labels := strings.Split(strings.TrimPrefix(names[r.Intn(len(names))], "*."), ".")
 			k := r.Range(1, len(labels))
 			cst := strings.Join(labels[len(labels)-k:], ".")
 			if r.Chance(1, 3) && k < len(labels) {
